@@ -32,15 +32,23 @@ def load_known():
     return json.load(open(p)).get("findings", [])
 
 
+POW2_HELPER = re.compile(r"^[A-Za-z_0-9]+/((?:NonZero)?Pow2Usize)(?: \(checked_num!\))?::(\w+)")
+
+
 def in_scope(prop, failure):
     kinds = PROPS[prop].get("kinds")
     if kinds and not any(failure.get("kind", "").startswith(k) for k in kinds):
         return False
     scope = PROPS[prop].get("scope")
+    ob = failure.get("obligation") or ""
+    # The power-of-two newtypes of num.rs are included in most units (callers are checked against their contracts).
+    # A failure inside one of them belongs to a property only if the code the property is about calls that function.
+    m = POW2_HELPER.match(ob)
+    if m:
+        return "%s::%s" % (m.group(1), m.group(2)) in PROPS[prop].get("pow2", ())
     if not scope:
         return True
     fn = failure.get("function") or ""
-    ob = failure.get("obligation") or ""
     for pat in scope:
         if re.search(pat, ob.split(": ")[0]):
             return True
